@@ -128,13 +128,19 @@ string JsonPointer::UnEscapeString(const string &input) {
   string token = input;
   size_t pos = 0;
   // Section 4 of the RFC explains why we do it in this order.
-  while ((pos = token.find("~1")) != string::npos) {
+  // Each search resumes after the character that was just produced, so that
+  // the output of a replacement is never treated as an escape sequence
+  // again ("~00" is "~0", not "~").
+  while ((pos = token.find("~1", pos)) != string::npos) {
     token[pos] = '/';
     token.erase(pos + 1, 1);
+    pos++;
   }
-  while ((pos = token.find("~0")) != string::npos) {
+  pos = 0;
+  while ((pos = token.find("~0", pos)) != string::npos) {
     token[pos] = '~';
     token.erase(pos + 1, 1);
+    pos++;
   }
   return token;
 }
